@@ -102,6 +102,17 @@ _FLOAT = re.compile(rb'-?([0-9]+\.?[0-9]*|\.[0-9]+)([eE][-+]?[0-9]+)?\Z')
 _WS = b' \t\n\v\f\r'
 
 
+_PREFIXED = re.compile(rb'0x[0-9a-fA-F]+\Z|0b[01]+\Z|0[0-7]+\Z')
+
+
+def _prefixed_value(t):
+    if t[1:2] == b'x':
+        return int(t[2:], 16)
+    if t[1:2] == b'b':
+        return int(t[2:], 2)
+    return int(t[1:], 8)
+
+
 def conv_int(t):
     """-> (ACCEPT, value) | (REJECT, None) | (UNSPEC, None)"""
     if t is None:
@@ -115,7 +126,18 @@ def conv_int(t):
     if t[0:1] == b'+':
         return (UNSPEC, None)   # leading plus
     if t[0:1] == b'-' and t[1:2] == b'0' and len(t) > 2:
-        return (UNSPEC, None)   # sign in front of a radix prefix (-0x10, -010)
+        # sign in front of a radix prefix (-0x10, -010): whether such a token is a numeral is not stated, but IF it is accepted it
+        # "yields exactly that number": the sign applied to the digits read in the radix the prefix selects (or, for a leading 0,
+        # read as decimal) - never the magnitude alone or another value.  The set of readings constrains accepted values only.
+        rv, rval = conv_int(t[1:])
+        allowed = set()
+        if rv == UNSPEC:
+            return (UNSPEC, None)
+        if rv == ACCEPT or (rval is None and _PREFIXED.match(t[1:])):
+            allowed.add(-_prefixed_value(t[1:]))
+        if re.match(rb'[0-9]+\Z', t[1:]):
+            allowed.add(-int(t[1:]))
+        return (UNSPEC, frozenset(allowed) if allowed else None)
     if t[0:1] == b'0' and len(t) > 1:
         p = t[1:2]
         if p == b'x':
